@@ -59,7 +59,50 @@ func randDomain(rng *rand.Rand) string {
 	return strings.Join(l, ".")
 }
 
+// longDomainList: 9-14 names, more than 256 bytes encoded; the first ones share nothing, later ones share
+// parents that occur for the first time early and late in the list (whatever an encoder does with common
+// suffixes, the list a client decodes is the configured one).
+func longDomainList(rng *rand.Rand) []string {
+	var a []string
+	n := 6 + rng.Intn(4)
+	for i := 0; i < n; i++ {
+		a = append(a, fmt.Sprintf("host-%02d.%s-%d.dept%d.example%d.org", i, []string{"a-rather-long-label", "another-long-subdomain", "yet-another-long-label-x"}[rng.Intn(3)], rng.Intn(1000), i, i))
+	}
+	late := fmt.Sprintf("late-parent-%d.example.net", rng.Intn(100))
+	a = append(a, "alpha."+late, "beta."+late)
+	if rng.Intn(2) == 0 {
+		a = append(a, "gamma.beta."+late)
+	}
+	if rng.Intn(2) == 0 {
+		a = append(a, "again."+a[0], a[1])
+	}
+	return a
+}
+
+func manyAddrs(rng *rand.Rand, v6 bool) []string {
+	var a []string
+	for i := 0; i < 64+rng.Intn(17); i++ {
+		if v6 {
+			a = append(a, randIP6(rng))
+		} else {
+			a = append(a, randIP4(rng))
+		}
+	}
+	return a
+}
+
 func genOptConf(rng *rand.Rand, v6 bool) (string, []string) {
+	name, args := genOptConf1(rng, v6)
+	switch {
+	case name == "searchdomains" && rng.Intn(4) == 0:
+		args = longDomainList(rng)
+	case (name == "dns" || name == "router") && rng.Intn(6) == 0:
+		args = manyAddrs(rng, v6)
+	}
+	return name, args
+}
+
+func genOptConf1(rng *rand.Rand, v6 bool) (string, []string) {
 	if v6 {
 		switch rng.Intn(4) {
 		case 0:
@@ -208,6 +251,14 @@ func genOptReqs(c *optCase) []optReq {
 				ri.PRL = []byte{15}
 			}
 			rng.Shuffle(len(ri.PRL), func(a, b int) { ri.PRL[a], ri.PRL[b] = ri.PRL[b], ri.PRL[a] })
+			if rng.Intn(4) == 0 {
+				// a sloppy client: some codes are listed more than once (it still asks for exactly that set)
+				for k := 1 + rng.Intn(3); k > 0; k-- {
+					c := ri.PRL[rng.Intn(len(ri.PRL))]
+					at := rng.Intn(len(ri.PRL) + 1)
+					ri.PRL = append(ri.PRL[:at], append([]byte{c}, ri.PRL[at:]...)...)
+				}
+			}
 		}
 		mt := byte(3)
 		if ri.Discover {
